@@ -8,21 +8,21 @@ package delegation
 // the configured gateway contract; otherwise the call fails and nothing changes.
 
 //@ func (Precompile).Delegate
-//@   requires contract != nil
-//@   modifies state(ctx)
-//@   ensures[C10.pd.del.gateway] !old(gatewayOK(ctx, contract.CallerAddress)) ==> err != nil && state(ctx) == old(state(ctx))
+//@   requires contract != nil && !gatewayOK(ctx, contract.CallerAddress)
+//@   flag prune
+//@   ensures[C10.pd.del.gateway] err != nil && state(ctx) == old(state(ctx))
 
 //@ func (Precompile).Undelegate
-//@   requires contract != nil
-//@   modifies state(ctx)
-//@   ensures[C10.pd.undel.gateway] !old(gatewayOK(ctx, contract.CallerAddress)) ==> err != nil && state(ctx) == old(state(ctx))
+//@   requires contract != nil && !gatewayOK(ctx, contract.CallerAddress)
+//@   flag prune
+//@   ensures[C10.pd.undel.gateway] err != nil && state(ctx) == old(state(ctx))
 
 //@ func (Precompile).AssociateOperatorWithStaker
-//@   requires contract != nil
-//@   modifies state(ctx)
-//@   ensures[C10.pd.assoc.gateway] !old(gatewayOK(ctx, contract.CallerAddress)) ==> err != nil && state(ctx) == old(state(ctx))
+//@   requires contract != nil && !gatewayOK(ctx, contract.CallerAddress)
+//@   flag prune
+//@   ensures[C10.pd.assoc.gateway] err != nil && state(ctx) == old(state(ctx))
 
 //@ func (Precompile).DissociateOperatorFromStaker
-//@   requires contract != nil
-//@   modifies state(ctx)
-//@   ensures[C10.pd.dissoc.gateway] !old(gatewayOK(ctx, contract.CallerAddress)) ==> err != nil && state(ctx) == old(state(ctx))
+//@   requires contract != nil && !gatewayOK(ctx, contract.CallerAddress)
+//@   flag prune
+//@   ensures[C10.pd.dissoc.gateway] err != nil && state(ctx) == old(state(ctx))
